@@ -307,6 +307,8 @@ def run(ctx: Ctx) -> None:
              Cond("finding_waits_child", "finding", 300, key="C11:stop-joins-a-task-waiting-for-a-queued-child",
                   what="ThreadRunner._on_stop kills+reroutes an alive task that is waiting for a queued child and then joins its thread; once this runner stopped polling nobody runs the child, so the join (and the stop) never completes")]
     ctx.ch_batch("c11", src, conds)
+    from props import C11_sim
+    C11_sim.run(ctx)
     ctx.functions_encoded += ["ThreadRunner._on_start/_on_stop/runner_loop_iteration (line-level twin)/_reclaim_available_slots", "BaseRunner._kill_and_reroute/stop_runner_loop/on_stop",
                               "BaseOrchestrator.get_invocations_to_run (lazy claim generator twins)/reroute_invocations/set_invocation_status/set_invocation_result/exception/retry"]
     ctx.bounds = {"unit": "1-3 claimed invocations, each with one of 9 (liveness, status at stop, behaviour while joined) plans; both backends",
